@@ -397,7 +397,15 @@ func invalidPayloadRaw(s *Stream, h *History) []byte {
 		p = e[:s.N(len(e))]
 	case 3: // well-formed event extended
 		e := pickEvent()
-		p = append(e, s.Bytes(1+s.N(8))...)
+		if s.Chance(1, 3) {
+			// ... by one or two further complete events (a relay that glued packets together)
+			p = append(e, pickEvent()...)
+			if s.Chance(1, 3) {
+				p = append(p, pickEvent()...)
+			}
+		} else {
+			p = append(e, s.Bytes(1+s.N(8))...)
+		}
 	case 4: // exactly a header with a wrong length field
 		p = s.Bytes(19)
 		setLen(p, []uint32{0, 18, 20, 1<<32 - 1, uint32(s.N(1 << 16))}[s.N(5)])
@@ -522,6 +530,7 @@ func packetCount(h *History, start Pos) int {
 }
 
 type faultEmphasis struct {
+	StartHigh    bool // C05: start offsets with bits above 2^32 set
 	GateAccepted bool // C17: some injected packets are bare headers that pass the validity gate
 	ConnPhase    int  // 1/n chance that a fault attempt is a connection-phase fault
 	Kinds        []stopKind
@@ -540,6 +549,9 @@ func genFaultScenario(t *Tape, o *GenOpts, em faultEmphasis) *Scenario {
 	sc.Scribble = cs.Chance(1, 6) // a consumer that overwrites what it accepted, also across attempts
 	if em.Timeout {
 		sc.ReadTimeout = cs.Chance(1, 3)
+	}
+	if em.StartHigh && cs.Chance(1, 16) {
+		sc.StartHigh = []int64{1 << 32, 3 << 32, 1 << 40, 1 << 62}[cs.N(4)]
 	}
 	nf := 1 + fs.N(em.MaxFaults)
 	npk := packetCount(h, sc.Start)
